@@ -52,6 +52,12 @@ func (p *Prop[C]) exec(c C) *Fail {
 	if panicked {
 		return &Fail{Sig: "panic:" + ev.PanicSite(msg), Detail: msg}
 	}
+	if f != nil && !strings.HasPrefix(f.Sig, "inconclusive") &&
+		(strings.Contains(f.Detail, "(definite=false)") || strings.Contains(f.Detail, "step timeout after")) {
+		// a wall-clock watchdog of the simulator fired without a definite diagnosis (a busy machine is enough for that):
+		// whatever a check makes of the resulting error, it is no observation about the property
+		f = &Fail{Sig: "inconclusive:watchdog:" + f.Sig, Detail: f.Detail}
+	}
 	return f
 }
 
